@@ -446,51 +446,75 @@ type atom struct {
 // conservatively: phi of (false-const on some edges, value on the other) under
 // polarity true implies the value.
 func guardAtoms(b *ssa.BasicBlock) []atom {
-	var out []atom
-	seen := map[ssa.Value]bool{}
-	var add func(v ssa.Value, pol bool)
-	add = func(v ssa.Value, pol bool) {
-		if u, ok := v.(*ssa.UnOp); ok && u.Op == token.NOT {
-			add(u.X, !pol)
-			return
-		}
-		if seen[v] {
-			return
-		}
-		seen[v] = true
-		out = append(out, atom{v, pol})
-		if phi, ok := v.(*ssa.Phi); ok {
-			// a && b  ==> phi [false, b] ; a || b ==> phi [true, b]
-			var nonConst []ssa.Value
-			constVal := -1
-			mixed := false
-			for _, e := range phi.Edges {
-				if c, ok := e.(*ssa.Const); ok && c.Value != nil && c.Value.Kind() == constant.Bool {
-					cv := 0
-					if constant.BoolVal(c.Value) {
-						cv = 1
-					}
-					if constVal >= 0 && constVal != cv {
-						mixed = true
-					}
-					constVal = cv
-				} else {
-					nonConst = append(nonConst, e)
+	ex := &atomExpander{seen: map[ssa.Value]bool{}}
+	for _, g := range guardsOf(b) {
+		ex.add(g.Cond, g.Pol)
+	}
+	return ex.out
+}
+
+// valueAtoms: what follows from the boolean value v having the value pol (same expansion as for branch conditions).
+func valueAtoms(v ssa.Value, pol bool) []atom {
+	ex := &atomExpander{seen: map[ssa.Value]bool{}}
+	ex.add(v, pol)
+	return ex.out
+}
+
+type atomExpander struct {
+	out  []atom
+	seen map[ssa.Value]bool
+}
+
+func (ex *atomExpander) add(v ssa.Value, pol bool) {
+	if u, ok := v.(*ssa.UnOp); ok && u.Op == token.NOT {
+		ex.add(u.X, !pol)
+		return
+	}
+	if ex.seen[v] {
+		return
+	}
+	ex.seen[v] = true
+	ex.out = append(ex.out, atom{v, pol})
+	if phi, ok := v.(*ssa.Phi); ok {
+		// a && b  ==> phi [false, b] ; a || b ==> phi [true, b]
+		var nonConst []ssa.Value
+		constVal := -1
+		mixed := false
+		for _, e := range phi.Edges {
+			if c, ok := e.(*ssa.Const); ok && c.Value != nil && c.Value.Kind() == constant.Bool {
+				cv := 0
+				if constant.BoolVal(c.Value) {
+					cv = 1
 				}
+				if constVal >= 0 && constVal != cv {
+					mixed = true
+				}
+				constVal = cv
+			} else {
+				nonConst = append(nonConst, e)
 			}
-			if !mixed && constVal >= 0 && len(nonConst) >= 1 {
-				// and-chain: const false; phi true => all nonConst true and the guards of their blocks hold
-				if (constVal == 0 && pol) || (constVal == 1 && !pol) {
-					if len(nonConst) == 1 {
-						add(nonConst[0], pol)
-						// the block computing nonConst[0] is reached only under the earlier conjuncts
-						for i, e := range phi.Edges {
-							if e == nonConst[0] {
-								pb := phi.Block().Preds[i]
-								for _, g := range guardsOf(pb) {
-									add(g.Cond, g.Pol)
+		}
+		if !mixed && constVal >= 0 && len(nonConst) >= 1 {
+			// and-chain: const false; phi true => all nonConst true and the guards of their blocks hold
+			if (constVal == 0 && pol) || (constVal == 1 && !pol) {
+				if len(nonConst) == 1 {
+					ex.add(nonConst[0], pol)
+					// the block computing nonConst[0] is reached only under the earlier conjuncts
+					for i, e := range phi.Edges {
+						if e == nonConst[0] {
+							pb := phi.Block().Preds[i]
+							for _, g := range guardsOf(pb) {
+								ex.add(g.Cond, g.Pol)
+							}
+							// the edge itself may be the true/false edge of an If in pb
+							if len(pb.Instrs) > 0 {
+								if ifi, ok := pb.Instrs[len(pb.Instrs)-1].(*ssa.If); ok && len(pb.Succs) == 2 && pb.Succs[0] != pb.Succs[1] {
+									if pb.Succs[0] == phi.Block() {
+										ex.add(ifi.Cond, true)
+									} else if pb.Succs[1] == phi.Block() {
+										ex.add(ifi.Cond, false)
+									}
 								}
-								// include pb's own position in a chain: conditions of its dominating ifs are in guardsOf
 							}
 						}
 					}
@@ -498,10 +522,6 @@ func guardAtoms(b *ssa.BasicBlock) []atom {
 			}
 		}
 	}
-	for _, g := range guardsOf(b) {
-		add(g.Cond, g.Pol)
-	}
-	return out
 }
 
 // reachableRepo computes the set of repository functions reachable from roots through
@@ -550,6 +570,13 @@ func staticReach(root *ssa.Function, keep func(*ssa.Function) bool) map[*ssa.Fun
 			}
 			if mc, ok := in.(*ssa.MakeClosure); ok {
 				if f2, ok := mc.Fn.(*ssa.Function); ok {
+					walk(f2)
+				}
+			}
+			// functions handed on as values (the per-node step of a loop driver, a predicate of a filter helper)
+			// are called by whoever receives them: they belong to the closure too
+			for _, op := range in.Operands(nil) {
+				if f2, ok := (*op).(*ssa.Function); ok {
 					walk(f2)
 				}
 			}
@@ -688,15 +715,30 @@ func typeSwitchArms(fn *ssa.Function) map[*ssa.BasicBlock]map[*ssa.TypeAssert]bo
 func withCallees(blocks []*ssa.BasicBlock, pkgKey string, self *ssa.Function, visit func(ssa.Instruction)) {
 	seen := map[*ssa.Function]bool{self: true}
 	var visitFn func(g *ssa.Function, depth int)
+	enter := func(sc *ssa.Function, depth int) {
+		if sc == nil || fnPkgKey(sc) != pkgKey || seen[sc] || depth >= 6 {
+			return
+		}
+		if theWorld != nil && sc == theWorld.Roles().ExecContext {
+			return
+		}
+		seen[sc] = true
+		visitFn(sc, depth+1)
+	}
 	handle := func(in ssa.Instruction, depth int) {
 		visit(in)
 		if c, ok := in.(ssa.CallInstruction); ok {
-			if sc := staticCallee(c); sc != nil && fnPkgKey(sc) == pkgKey && !seen[sc] && depth < 6 {
-				if theWorld != nil && sc == theWorld.Roles().ExecContext {
-					return
-				}
-				seen[sc] = true
-				visitFn(sc, depth+1)
+			enter(staticCallee(c), depth)
+		}
+		// function literals created here and functions handed on as values run on behalf of this region
+		if mc, ok := in.(*ssa.MakeClosure); ok {
+			if f2, ok := mc.Fn.(*ssa.Function); ok {
+				enter(f2, depth)
+			}
+		}
+		for _, op := range in.Operands(nil) {
+			if f2, ok := (*op).(*ssa.Function); ok {
+				enter(f2, depth)
 			}
 		}
 	}
@@ -712,4 +754,59 @@ func withCallees(blocks []*ssa.BasicBlock, pkgKey string, self *ssa.Function, vi
 			handle(in, 0)
 		}
 	}
+}
+
+// throughCells follows a value that was read from a variable cell back to the value assigned to it: go/ssa keeps
+// every variable captured by a function literal in a heap cell, so `x := f(); g(func() { use(x) })` reads x through
+// a FreeVar in the literal and through the cell in the enclosing function. Only cells with a single assignment that
+// the literals merely read are followed.
+func throughCells(v ssa.Value) ssa.Value {
+	for i := 0; i < 6; i++ {
+		ld, ok := v.(*ssa.UnOp)
+		if !ok || ld.Op != token.MUL {
+			return v
+		}
+		var cell ssa.Value = ld.X
+		if fv, ok := cell.(*ssa.FreeVar); ok {
+			b := freeVarBinding(fv)
+			if b == nil {
+				return v
+			}
+			cell = b
+		}
+		vals, ok := scalarCell(cell)
+		if !ok || len(vals) != 1 {
+			return v
+		}
+		v = vals[0]
+	}
+	return v
+}
+
+// freeVarBinding: the value bound to fv where its function literal is created (nil when it is created in more than
+// one place).
+func freeVarBinding(fv *ssa.FreeVar) ssa.Value {
+	fn := fv.Parent()
+	parent := fn.Parent()
+	if parent == nil {
+		return nil
+	}
+	idx := -1
+	for i, x := range fn.FreeVars {
+		if x == fv {
+			idx = i
+		}
+	}
+	var out ssa.Value
+	n := 0
+	allInstrs(parent, func(in ssa.Instruction) {
+		if mc, ok := in.(*ssa.MakeClosure); ok && mc.Fn == ssa.Value(fn) && idx >= 0 && idx < len(mc.Bindings) {
+			out = mc.Bindings[idx]
+			n++
+		}
+	})
+	if n != 1 {
+		return nil
+	}
+	return out
 }
